@@ -70,6 +70,14 @@ def configs(tier, seed):
             cfgs.append({"aw": aw, "dw": dw, "g": g, "ops": [["add", "a", dw + 1, None], ["add", "b", dw, None], ["add", "c", 2 * dw + 1, None]]})
             if top >= 8:
                 cfgs.append({"aw": aw, "dw": dw, "g": g, "ops": [["add", "a", dw, (top - 1) * k], ["add", "b", dw, None]]})   # cursor at the end
+    # very wide address spaces: offsets whose word address has more than 53 significant bits (exact integer arithmetic)
+    for aw, dw, g in ((62, 32, 8), (56, 16, 8), (60, 8, 8), (64, 64, 16)):
+        k = dw // g
+        hi = (1 << (aw - 2)) + 1
+        cfgs.append({"aw": aw, "dw": dw, "g": g, "ops": [["add", "a", dw, hi * k], ["add", "b", dw, None], ["add", "c", 3 * dw, None]]})
+        cfgs.append({"aw": aw, "dw": dw, "g": g, "ops": [["add", "a", dw, (hi - 1) * k], ["add", "b", dw, hi * k], ["add", "c", dw, (hi + 1) * k],
+                                                         ["add", "d", 2 * dw, ((1 << aw) - 2) * k]]})
+        cfgs.append({"aw": aw, "dw": dw, "g": g, "ops": [["cluster", "hi"], ["add", "a", 2 * dw, ((1 << (aw - 1)) + 6) * k], ["pop"], ["add", "b", dw, ((1 << (aw - 1)) + 7) * k]]})
     return cfgs
 
 
